@@ -126,6 +126,80 @@ example : ∃ s, RM.Reach s ∧ s.result = some [7, 5] :=
       .start 1, .ret 1 (.err 7), .ret 0 (.err 5), .ret 2 .canceled, .deliver 1, .deliver 2,
       .deliver 0, .runRet] rfl, rfl⟩
 
+/-- How a Go error value is seen by the model. `isCanceled` stands for the predicate
+`errors.Is(·, context.Canceled)` — the theorems below hold for *every* predicate, so nothing is
+assumed about it — and `ident` names a value inside a joined error. `context.DeadlineExceeded`, an
+error wrapping it, the error or the cause of the context handed to `Run`: every value on which
+`isCanceled` is false is a real error (`Ret.err`). -/
+def Ret.ofGo {α : Type} (isCanceled : α → Bool) (ident : α → Nat) : Option α → Ret
+  | none => .nil
+  | some e => if isCanceled e then .canceled else .err (ident e)
+
+/-- What survives the filter, in terms of the Go value: non-nil and not `isCanceled`. -/
+def reportedOf {α : Type} (isCanceled : α → Bool) (ident : α → Nat) (v : Option α) : Option Nat :=
+  v.bind fun e => if isCanceled e then none else some (ident e)
+
+theorem Ret.real_ofGo {α : Type} (isCanceled : α → Bool) (ident : α → Nat) (v : Option α) :
+    (Ret.ofGo isCanceled ident v).real = reportedOf isCanceled ident v := by
+  cases v with
+  | none => rfl
+  | some e => cases h : isCanceled e <;> simp [Ret.ofGo, reportedOf, Ret.real, h]
+
+/-- **error_is_join_of_non_canceled.** With the error kind made explicit: if the bodies returned the
+Go values `vs` (runner `i` returned `vs[i]`), what `Run` returns is, as a multiset, exactly the
+values that are non-nil and not `isCanceled` — whatever the predicate is, and whatever happened to
+the context handed to `Run` (the hypotheses do not mention it). -/
+theorem error_is_join_of_non_canceled {α : Type} (isCanceled : α → Bool) (ident : α → Nat)
+    {s : RM} (hr : RM.Reach s) (es : List Nat) (hres : s.result = some es) (vs : List (Option α))
+    (hvs : s.pcs.map RPc.retVal = vs.map fun v => some (Ret.ofGo isCanceled ident v)) :
+    es.Perm (vs.filterMap (reportedOf isCanceled ident)) := by
+  have h := error_is_join_of_real_errors hr es hres
+  have e1 : s.pcs.filterMap (fun p => p.retVal.bind Ret.real)
+      = (s.pcs.map RPc.retVal).filterMap (fun o => o.bind Ret.real) := by
+    rw [List.filterMap_map]; rfl
+  rw [e1, hvs, List.filterMap_map] at h
+  have e2 : ((fun o : Option Ret => o.bind Ret.real) ∘ fun v => some (Ret.ofGo isCanceled ident v))
+      = reportedOf isCanceled ident := by
+    funext v; simp [Function.comp, Ret.real_ofGo]
+  rwa [e2] at h
+
+/-- A returned value that is not `isCanceled` (a deadline error, say) is in what `Run` reports. -/
+theorem non_canceled_error_is_reported {α : Type} (isCanceled : α → Bool) (ident : α → Nat)
+    {s : RM} (hr : RM.Reach s) (es : List Nat) (hres : s.result = some es) (vs : List (Option α))
+    (hvs : s.pcs.map RPc.retVal = vs.map fun v => some (Ret.ofGo isCanceled ident v))
+    (e : α) (he : some e ∈ vs) (hc : isCanceled e = false) : ident e ∈ es := by
+  have h := error_is_join_of_non_canceled isCanceled ident hr es hres vs hvs
+  rw [h.mem_iff, List.mem_filterMap]
+  exact ⟨some e, he, by simp [reportedOf, hc]⟩
+
+/-- **result_independent_of_context.** Two runs — any two interleavings, the caller's context
+cancelled or not, before or after anything — in which the bodies returned the same values report
+the same errors: the report is a function of the returned values alone, never of the state (or the
+error) of the manager's context. -/
+theorem result_independent_of_context {s t : RM} (hs : RM.Reach s) (ht : RM.Reach t)
+    (es et : List Nat) (h1 : s.result = some es) (h2 : t.result = some et)
+    (hv : s.pcs.map RPc.retVal = t.pcs.map RPc.retVal) : es.Perm et := by
+  have a := error_is_join_of_real_errors hs es h1
+  have b := error_is_join_of_real_errors ht et h2
+  have e : ∀ u : RM, u.pcs.filterMap (fun p => p.retVal.bind Ret.real)
+      = (u.pcs.map RPc.retVal).filterMap (fun o => o.bind Ret.real) := by
+    intro u; rw [List.filterMap_map]; rfl
+  rw [e s, hv, ← e t] at a
+  exact a.trans b.symm
+
+/-- Satisfiable and not vacuous: the caller's context is done before `Run` is even called in one
+run and never in the other; both report the deadline error `40` and drop the `Canceled` one. Here
+`α = Bool`, `true` = a Canceled-like value, `false` = a DeadlineExceeded-like value. -/
+example : ∃ s t, RM.Reach s ∧ RM.Reach t ∧ s.parentCancelled = true ∧ t.parentCancelled = false ∧
+    s.result = some [40] ∧ t.result = some [40] ∧
+    s.pcs.map RPc.retVal = [some false, some true].map
+      (fun v => some (Ret.ofGo (fun b => b) (fun _ => 40) v)) :=
+  ⟨_, _, RM.reach_runLabels [.addCall 2, .addDo 2, .addRet true, .parentCancel, .runCall, .runCas, .spawn, .spawn,
+      .start 0, .start 1, .ctxDone 1, .ret 0 (.err 40), .ret 1 .canceled, .deliver 0, .deliver 1, .runRet] rfl,
+    RM.reach_runLabels [.addCall 2, .addDo 2, .addRet true, .runCall, .runCas, .spawn, .spawn,
+      .start 0, .start 1, .ret 0 (.err 40), .deliver 0, .cancelBy 0, .ctxDone 1, .ret 1 .canceled, .deliver 1, .runRet] rfl,
+    rfl, rfl, rfl, rfl, rfl⟩
+
 /-- Event-log form of `run_returns_after_all`: in every execution, when `Run` returns, the log
 contains a `ret i v` event for every registered runner `i`. -/
 theorem run_returns_after_all_trace {tr : List RLabel} {s s' : RM} (he : RM.Exec tr s)
